@@ -319,8 +319,11 @@ def basis_function_ders(degree, knot_vector, span, knot, order):
             saved = left[j - r] * temp
         ndu[j][j] = saved
 
+    # Derivatives of order higher than the degree vanish: compute and return min(degree, order) + 1 rows
+    order = min(degree, order)
+
     # Load the basis functions
-    ders = [[0.0 for _ in range(degree + 1)] for _ in range((min(degree, order) + 1))]
+    ders = [[0.0 for _ in range(degree + 1)] for _ in range(order + 1)]
     for j in range(0, degree + 1):
         ders[0][j] = ndu[j][degree]
 
@@ -429,8 +432,8 @@ def basis_function_ders_one(degree, knot_vector, span, knot, order):
     # The basis function value is the zeroth derivative
     ders[0] = N[0][degree]
 
-    # Computing the basis functions derivatives
-    for k in range(1, order + 1):
+    # Computing the basis functions derivatives (derivatives of order higher than the degree stay zero)
+    for k in range(1, min(degree, order) + 1):
         # Buffer for computing the kth derivative
         ND = [0.0 for _ in range(0, k + 1)]
 
